@@ -441,6 +441,8 @@ ebpps_sketch<T,A> ebpps_sketch<T,A>::deserialize(const void* bytes, size_t size,
   ptr += copy_from_mem(ptr, wt_max);
   double rho;
   ptr += copy_from_mem(ptr, rho);
+  if (!(cumulative_wt > 0.0) || std::isinf(cumulative_wt) || !(wt_max > 0.0) || wt_max > cumulative_wt || !(rho > 0.0) || std::isinf(rho))
+    throw std::runtime_error("sketch fails internal consistency check");
 
   auto pair = ebpps_sample<T, A>::deserialize(ptr, end_ptr - ptr, sd, allocator);
   ebpps_sample<T, A> sample = pair.first;
@@ -474,6 +476,8 @@ ebpps_sketch<T,A> ebpps_sketch<T,A>::deserialize(std::istream& is, const SerDe& 
   const double cumulative_wt = read<double>(is);
   const double wt_max = read<double>(is);
   const double rho = read<double>(is);
+  if (!(cumulative_wt > 0.0) || std::isinf(cumulative_wt) || !(wt_max > 0.0) || wt_max > cumulative_wt || !(rho > 0.0) || std::isinf(rho))
+    throw std::runtime_error("sketch fails internal consistency check");
 
   auto sample = ebpps_sample<T,A>::deserialize(is, sd, allocator);
 
